@@ -8,7 +8,6 @@ use alloc::{string::String};
 use alloc::format;
 use alloc::string::ToString;
 use crate::session::Session;
-use crate::tools::do_divition;
 use core::ops::Deref;
 
 use crate::config::SmartCalcConfig;
@@ -22,6 +21,7 @@ pub const WEEK: i64 = DAY * 7;
 pub const MONTH: i64 = DAY * 30;
 pub const YEAR: i64 = DAY * 365;
 
+#[allow(dead_code)]
 fn fract_information(f: f64) -> u64 {
     let eps = 1e-4;
     let mut f = f.abs().fract();
@@ -43,39 +43,39 @@ pub fn left_padding(number: i64, size: usize) -> String {
 }
 
 pub fn format_number(number: f64, thousands_separator: String, decimal_separator: String, decimal_digits: u8, remove_fract_if_zero: bool, use_fract_rounding: bool) -> String {
-    let divider      = 10_u32.pow(decimal_digits.into());
-    let fract_number = do_divition((number * divider as f64).round(), divider as f64);
-    let trunc_part   = fract_number.trunc().abs().to_string();
-
     let formated_number = match use_fract_rounding {
         true => format!("{:.width$}", &number.abs(), width = decimal_digits.into()),
         false => format!("{}", &number.abs())
     };
 
-    let fract_part = fract_information(fract_number.fract());
+    if !number.is_finite() {
+        return formated_number;
+    }
+
+    /* Integer part, its grouping and the fraction are taken from the same rounded text, so they can not disagree on carry */
+    let (trunc_part, fract_part) = match formated_number.find('.') {
+        Some(position) => (&formated_number[..position], &formated_number[position + 1..]),
+        None => (&formated_number[..], "")
+    };
+
     let trunc_size = trunc_part.len();
-    let mut trunc_dot_index = 3 - (trunc_part.len() % 3);
     let mut trunc_formated = String::new();
 
-
-    if number < 0.0 {
+    if number < 0.0 && formated_number.chars().any(|ch| ch != '0' && ch != '.') {
         trunc_formated.push('-');
     }
 
-    for index in 0..trunc_size {
-        trunc_formated.push(formated_number.chars().nth(index).unwrap());
-        trunc_dot_index += 1;
-        if trunc_size != (index + 1) && trunc_dot_index % 3 == 0 {
+    for (index, ch) in trunc_part.chars().enumerate() {
+        if index > 0 && (trunc_size - index) % 3 == 0 {
             trunc_formated.push_str(&thousands_separator);
         }
+        trunc_formated.push(ch);
     }
-    
-    if (fract_part > 0 || !remove_fract_if_zero) && trunc_size != formated_number.len() {
-        trunc_formated.push_str(&decimal_separator);
 
-        for index in (trunc_size+1)..formated_number.len() {
-            trunc_formated.push(formated_number.chars().nth(index).unwrap());
-        }
+    let is_fract_zero = fract_part.chars().all(|ch| ch == '0');
+    if !fract_part.is_empty() && !(is_fract_zero && remove_fract_if_zero) {
+        trunc_formated.push_str(&decimal_separator);
+        trunc_formated.push_str(fract_part);
     }
 
     trunc_formated
